@@ -469,4 +469,11 @@ def run_case(case):
     case.note('axis_magnitude:' + ('1' if ax['scale'] == 1.0 else 'pow2' if np.log2(ax['scale']) % 1 == 0 else 'pow10'))
     case.note(f"axis_layout_related_leg:{ax['layout2']}")
     case.note(f"axis_degenerate:{ax['degenerate']}")
+    if rel == 'translate':
+        case.note(f"axis2_offset_parity:dx_{'odd' if pads[0] % 2 else 'even'}_dy_{'odd' if pads[2] % 2 else 'even'}")
+    for ep in eps:
+        o_ = scene['opts'].get(ep.name) or {}
+        for kk in ('snapped', 'seg_history', 'sublabels', 'used_before'):
+            if o_.get(kk):
+                case.note(f'axis2_{kk}:{ep.name}:{o_[kk]}')
     case.nontrivial = npos > 0
